@@ -33,6 +33,9 @@ pub struct Faults {
     pub stale_delivery: f64,
     pub adversary: f64,
     pub chain_down: f64,
+    /// share of signature deliveries that travel through the message queue (DMQ) path
+    #[serde(default)]
+    pub dmq: f64,
     /// operator restarts the aggregator with other protocol parameters in its configuration
     #[serde(default)]
     pub reconfig: f64,
@@ -109,7 +112,13 @@ pub enum Event {
     ChainDown { down: bool },
     Register { id: u32, party: usize, new_key: bool },
     Sign { id: u32, party: usize, early: bool },
+    /// a registered party signs the open message with the key (and against the registration)
+    /// it holds for the *next* signing epoch — material the aggregator also knows
+    SignWithNextKey { id: u32, party: usize },
     Deliver { id: u32, keep: bool, damage: Option<Damage> },
+    /// the signature message reaches the aggregator through the message queue instead of HTTP:
+    /// payload = (signature, signed entity type), envelope identity = the party named on it
+    DeliverDmq { id: u32, keep: bool },
     Drop { id: u32 },
     Expire,
     Restart,
@@ -147,6 +156,7 @@ impl Event {
             Event::SyncView => "sync-view",
             Event::ChainDown { .. } => "chain-down",
             Event::Register { .. } => "register",
+            Event::SignWithNextKey { .. } => "sign-with-next-epoch-key",
             Event::Sign { early, .. } => {
                 if *early {
                     "sign-early"
@@ -161,6 +171,7 @@ impl Event {
             },
             Event::Drop { .. } => "drop",
             Event::Expire => "expire",
+            Event::DeliverDmq { .. } => "deliver-dmq",
             Event::Restart => "restart",
             Event::Reconfigure { .. } => "reconfigure",
             Event::Genesis => "genesis",
@@ -367,7 +378,7 @@ impl World {
         let agg = AggregatorNode::new(
             scratch.sub("aggregator"),
             view.clone(),
-            AggSettings { protocol_parameters: sc.parameters(), entity_types },
+            AggSettings { protocol_parameters: sc.parameters(), entity_types, dmq_dedup: true },
         );
         let db_fault: Arc<Mutex<DbFaultState>> = Default::default();
         let link = std::sync::Arc::new(LinkShared {
@@ -728,7 +739,8 @@ impl World {
                 }
                 ok(format!("party {party} registers for epoch {recording_epoch} (key #{key_index})"))
             }
-            Event::Sign { id, party, early } => self.apply_sign(*id, *party, *early),
+            Event::Sign { id, party, early } => self.apply_sign(*id, *party, *early, false),
+            Event::SignWithNextKey { id, party } => self.apply_sign(*id, *party, false, true),
             Event::Deliver { id, keep, damage } => {
                 if !self.agg.is_up() {
                     return skip("aggregator down");
@@ -770,6 +782,41 @@ impl World {
                     body,
                     agg_epoch_view,
                 });
+                ok(note)
+            }
+            Event::DeliverDmq { id, keep } => {
+                use mithril_common::crypto_helper::ProtocolSingleSignature;
+                use mithril_common::messages::RegisterSignatureMessageDmq;
+                if !self.agg.is_up() {
+                    return skip("aggregator down");
+                }
+                let Some(msg) = self.inflight.get(id).cloned() else { return skip("no such message") };
+                let MsgKind::Signature { entity, claimed, signature_hex, .. } = &msg.kind else {
+                    return skip("registrations do not travel through the message queue");
+                };
+                let Ok(signature): Result<ProtocolSingleSignature, _> = signature_hex.clone().try_into() else {
+                    return skip("undecodable signature");
+                };
+                let message = RegisterSignatureMessageDmq { signed_entity_type: entity.to_real().into(), signature };
+                if *keep {
+                    self.hit("fault_message_duplicated");
+                    self.inflight.get_mut(id).unwrap().deliveries += 1;
+                } else {
+                    self.inflight.remove(id);
+                }
+                if msg.created_epoch < self.epoch {
+                    self.hit("fault_message_delayed_across_epoch");
+                }
+                let err = self.agg.dmq_deliver(message, claimed.clone());
+                self.hit("ev_delivered_through_message_queue");
+                if err.as_deref().is_some_and(|e| e.starts_with("PANIC")) {
+                    self.hit("probe_signature_processor_panicked");
+                }
+                let agg_epoch_view = self.view_epoch();
+                let note = format!("msg {id} -> dmq{}", err.as_ref().map(|e| format!(" ERR {}", first_line(e))).unwrap_or_default());
+                // the undamaged HTTP-form body stands for the payload in the delivery log
+                let body = msg.body.clone();
+                self.deliveries.push(Delivery { step: self.step, msg, damaged: false, status: 0, response: err.unwrap_or_default(), body, agg_epoch_view });
                 ok(note)
             }
             Event::Drop { id } => {
@@ -948,12 +995,12 @@ impl World {
         }
     }
 
-    fn apply_sign(&mut self, id: u32, party: usize, early: bool) -> Applied {
+    fn apply_sign(&mut self, id: u32, party: usize, early: bool, next_key: bool) -> Applied {
         let skip = |note: &str| Applied { enabled: false, note: note.to_string() };
         if party >= self.parties.len() {
             return skip("no such party");
         }
-        let Some((epoch, current, _next)) = self.published_signers() else { return skip("no epoch settings") };
+        let Some((epoch, current, next)) = self.published_signers() else { return skip("no epoch settings") };
         // which entity and message
         let (entity, message): (Entity, String) = if early {
             // the beacon the aggregator will open next for CardanoDatabase, computed by the
@@ -973,10 +1020,10 @@ impl World {
             };
             (om.entity, pm.to_message())
         };
-        if !self.can_sign(party, &entity) {
+        if !next_key && !self.can_sign(party, &entity) {
             return skip("already signed");
         }
-        let recording_epoch = epoch - 1;
+        let (recording_epoch, current) = if next_key { (epoch, next) } else { (epoch - 1, current) };
         let party_id = self.parties[party].party_id.clone();
         // the party uses the key whose verification key the aggregator publishes for it
         let Some(published) = current.iter().find(|s| s.party_id == party_id) else {
@@ -991,6 +1038,7 @@ impl World {
         let params = key.parameters.clone();
         let sig = match key.sign(&current, &params, &message) {
             Ok(Some(sig)) => sig,
+            Ok(None) if next_key => return skip("lost all lotteries"),
             Ok(None) => {
                 self.signed.insert((party, entity.clone()), id);
                 self.lost_lotteries.insert((party, entity));
@@ -1028,7 +1076,11 @@ impl World {
                 deliveries: 0,
             },
         );
-        self.signed.insert((party, entity.clone()), id);
+        if next_key {
+            self.hit("fault_adversary_signs_with_next_epoch_key");
+        } else {
+            self.signed.insert((party, entity.clone()), id);
+        }
         if early {
             self.hit("probe_signed_before_open_message");
         }
